@@ -370,4 +370,9 @@ theorem reachable_of_run (c : Cfg) (s s' : St) (es : List Ev) (hs : Reachable c 
     · rename_i s1 h1; exact ih s1 (.step e hs h1) h
     · cases h
 
+/-- what `coordinator()` dials after a successful FindCoordinator: host and port of the answer, joined the way
+`net.JoinHostPort` does (a host with a colon — an IPv6 literal — goes in brackets) -/
+def coordinatorAddress (host : String) (port : Int) : String :=
+  if host.contains ':' then "[" ++ host ++ "]:" ++ toString port else host ++ ":" ++ toString port
+
 end KV.Group
